@@ -246,7 +246,7 @@ def systematic(rng, two_d, pool=None, what=('repeat',), max_pairs=None):
 
     def frame(unsorted=False):
         if two_d:
-            m, n = 10, 9
+            m, n = 12, 11        # the default num_eigens (10, 10) must fit
             x = np.round(np.sort(rng.uniform(-20, 30, m)) * 16) / 16 + np.arange(m) / 8
             z = np.round(np.sort(rng.uniform(0, 50, n)) * 16) / 16 + np.arange(n) / 8
             if unsorted:
@@ -303,6 +303,11 @@ def systematic(rng, two_d, pool=None, what=('repeat',), max_pairs=None):
                 steps.append(step(name, cur, w))
             # optimizers sort for themselves (skip_sorting): their histories run on unsorted x; the others on either
             specs.append(dict(frame(unsorted=bool(e['cells'].get('skip_sorting')) or rng.random() < 0.35), steps=steps))
+            if not two_d:
+                # a fitter created WITHOUT x: its size is fixed by the first call; the same method is then handed shorter data
+                short = step(name, kw, 'none')
+                short['data'] = 'short'
+                specs.append(dict(frame(), mode='none', steps=[step(name, kw, 'none'), short, step(name, kw, 'none')]))
     if 'pairs' in what:
         by_mod = {}
         for name in names:
